@@ -157,6 +157,31 @@ class Pool:
         self.ops.append(op + ',M=' + m)
         self.val[res] = out
 
+    def self_op(self, o, kind=None):
+        """s.set(s.c_str() + k, n), s.set(s.view(k, n)), s = s.c_str() + k, s += s.c_str() + k: the argument lies
+        inside the target's own storage (a proper sub-range unless k = 0 and n = size)"""
+        rng = self.rng
+        v = self.val[o]
+        if any(c >= 0x80 for c in v):
+            return
+        n = len(v)
+        k = rng.choice([0, 1, n // 2, max(n - 1, 0)]) if n else 0
+        k = min(k, n)
+        cnt = min(rng.choice([0, 1, (n - k) // 2, n - k]), n - k)
+        kind = kind or rng.choice(['selfset', 'selfview', 'selfasg', 'selfappend'])
+        if kind in ('selfasg', 'selfappend') and 0 in v:
+            kind = 'selfset'
+        if kind in ('selfset', 'selfview'):
+            out = v[k:k + cnt]
+            self.ops.append('%s,%d,%d,%d,M=set:%s' % (kind, o, k, cnt, hx(out)))
+        elif kind == 'selfasg':
+            out = v[k:]
+            self.ops.append('selfasg,%d,%d,M=set:%s' % (o, k, hx(out)))
+        else:
+            out = v + v[k:]
+            self.ops.append('selfappend,%d,%d,M=cat:%s' % (o, k, hx(out)))
+        self.val[o] = out
+
     CONST = ['substr', 'substr', 'left', 'right', 'upper', 'lower', 'trim', 'plus', 'replace', 'replace',
              'replace_self', 'utf8', 'before_first', 'after_last', 'split0', 'empty', 'copy', 'copy',
              'hexenc', 'b64enc', 'hexrt', 'fmt', 'via16', 'via32', 'sstr']
@@ -174,6 +199,8 @@ class Pool:
         if live:
             ch += ['reads'] * 2 + ['asg'] * 2 + ['masg'] * 3 + ['set'] * 2 + ['clear', 'del', 'del']
             if known:
+                ch += ['self'] * 2
+            if known:
                 ch += ['append'] * 3
         k = rng.choice(ch)
         if k == 'new':
@@ -184,6 +211,8 @@ class Pool:
             o = rng.choice(known) if known else None
             if o is not None:
                 self.ops.append('reads,%d' % o)
+        elif k == 'self':
+            self.self_op(rng.choice(known))
         elif k == 'mctor':
             o, s = rng.choice(dead), rng.choice(live)
             self.ops.append('mctor,%d,%d' % (o, s))
@@ -249,6 +278,16 @@ def directed_histories(rng):
                 else:
                     cat = p.val[0] + p.val[2]
                     p.ops += ['append,0,2,M=cat:%s' % hx(cat), 'reads,1', 'del,0', 'reads,1', 'set,1,41', 'del,1', 'del,2']
+                out.append(p.ops)
+        for kind in ('selfset', 'selfview', 'selfasg', 'selfappend'):
+            for rep in range(2):
+                p = Pool(rng, 4)
+                p.new(0, rstr(rng, n))
+                p.new(1, rstr(rng, 20))
+                p.self_op(0, kind)
+                p.ops.append('reads,0')
+                p.self_op(0, kind)
+                p.ops += ['reads,0', 'reads,1', 'del,0', 'del,1']
                 out.append(p.ops)
         v = rstr(rng, n)
         out.append(['new,0,' + hx(v), 'asg,0,0', 'reads,0', 'append,0,0,M=cat:' + hx(v + v), 'reads,0',
